@@ -1,5 +1,171 @@
 package main
 
-func replayFor(w *World, prop string, a *aggOblig, model map[string]string) map[string]any {
+// Replay of solver models against the real code: an in-package Go test is
+// injected with `go test -overlay` (nothing is written into /repo).
+
+import (
+	"bytes"
+	"encoding/json"
+	"fmt"
+	"go/types"
+	"os"
+	"os/exec"
+	"path/filepath"
+	"strings"
+	"text/template"
+	"time"
+
+	"golang.org/x/tools/go/ssa"
+)
+
+func smtToGo(v string) string {
+	v = strings.TrimSpace(v)
+	if n, ok := isIntLit(v); ok {
+		return n.String()
+	}
+	switch v {
+	case "true", "false":
+		return v
+	}
+	return ""
+}
+
+func findFuncByShort(w *World, short string) *ssa.Function {
+	for f := range w.ContractOf {
+		if shortFuncName(f) == short {
+			return f
+		}
+	}
 	return nil
+}
+
+// genericAdapter: free functions / methods whose parameters are all integers
+// or booleans can be called directly with the model values.
+func genericAdapter(fn *ssa.Function, c *Contract, model map[string]string) (string, bool) {
+	if fn.Signature.Recv() != nil {
+		return "", false
+	}
+	var args []string
+	for i, p := range fn.Params {
+		switch kindOf(p.Type()) {
+		case KInt, KBool:
+			v := smtToGo(model[c.Params[i]])
+			if v == "" {
+				if kindOf(p.Type()) == KBool {
+					v = "false"
+				} else {
+					v = "0"
+				}
+			}
+			if kindOf(p.Type()) == KInt && !isFloat(p.Type()) {
+				v = fmt.Sprintf("%s(%s)", types.TypeString(p.Type(), func(*types.Package) string { return "" }), v)
+			}
+			args = append(args, v)
+		default:
+			return "", false
+		}
+	}
+	return fmt.Sprintf(`package %s
+
+import (
+	"fmt"
+	"testing"
+)
+
+func TestGovcReplay(t *testing.T) {
+	defer func() {
+		if r := recover(); r != nil {
+			fmt.Printf("REPLAY-CONFIRMED: panic: %%v\n", r)
+		}
+	}()
+	%s(%s)
+}
+`, fn.Pkg.Pkg.Name(), fn.Name(), strings.Join(args, ", ")), true
+}
+
+func replayFor(w *World, prop string, a *aggOblig, model map[string]string) map[string]any {
+	fn := findFuncByShort(w, a.Func)
+	if fn == nil || fn.Pkg == nil {
+		return nil
+	}
+	c := w.ContractOf[fn]
+	res := map[string]any{"confirmed": false}
+	var src string
+	tmplPath := filepath.Join(verifDir, "replay", "adapters", sanitize(a.Func)+".go.tmpl")
+	if data, err := os.ReadFile(tmplPath); err == nil {
+		// optional first line: //govc:obligations <substring>[,<substring>...]
+		if first := strings.SplitN(string(data), "\n", 2)[0]; strings.HasPrefix(first, "//govc:obligations ") {
+			okOb := false
+			for _, sub := range strings.Split(strings.TrimSpace(strings.TrimPrefix(first, "//govc:obligations ")), ",") {
+				if strings.Contains(a.Name, strings.TrimSpace(sub)) {
+					okOb = true
+				}
+			}
+			if !okOb {
+				res["error"] = "replay adapter does not cover this obligation"
+				return res
+			}
+		}
+		tm, err := template.New("a").Funcs(template.FuncMap{
+			"int": func(k string, def int64) string {
+				if v := smtToGo(model[k]); v != "" && v != "true" && v != "false" {
+					return v
+				}
+				return fmt.Sprint(def)
+			},
+			"bool": func(k string) string {
+				if v := smtToGo(model[k]); v == "true" || v == "false" {
+					return v
+				}
+				return "false"
+			},
+			"has": func(k string) bool { _, ok := model[k]; return ok },
+		}).Parse(string(data))
+		if err != nil {
+			res["error"] = "adapter template: " + err.Error()
+			return res
+		}
+		var buf bytes.Buffer
+		if err := tm.Execute(&buf, map[string]any{"Model": model, "Obligation": a.Name, "Kind": a.Kind}); err != nil {
+			res["error"] = "adapter template: " + err.Error()
+			return res
+		}
+		src = buf.String()
+		res["adapter"] = tmplPath
+	} else if g, ok := genericAdapter(fn, c, model); ok {
+		src = g
+		res["adapter"] = "generic (integer/boolean parameters)"
+	} else {
+		res["error"] = "no replay adapter for " + a.Func
+		return res
+	}
+	rel := strings.TrimPrefix(strings.TrimPrefix(fn.Pkg.Pkg.Path(), modPath), "/")
+	scratch, err := os.MkdirTemp("/root", "govc-replay-")
+	if err != nil {
+		scratch, err = os.MkdirTemp("", "govc-replay-")
+		if err != nil {
+			res["error"] = err.Error()
+			return res
+		}
+	}
+	defer os.RemoveAll(scratch)
+	tf := filepath.Join(scratch, "zz_govc_replay_test.go")
+	os.WriteFile(tf, []byte(src), 0o644)
+	ov := map[string]any{"Replace": map[string]string{filepath.Join(w.RepoDir, rel, "zz_govc_replay_test.go"): tf}}
+	ovData, _ := json.Marshal(ov)
+	ovFile := filepath.Join(scratch, "ov.json")
+	os.WriteFile(ovFile, ovData, 0o644)
+	cmdline := fmt.Sprintf("ulimit -v 8000000; cd %s && go test -overlay %s -v -vet=off -count=1 -timeout 60s -run '^TestGovcReplay$' ./%s/", w.RepoDir, ovFile, rel)
+	cmd := exec.Command("bash", "-c", cmdline)
+	cmd.Env = append(os.Environ(), "GOFLAGS=-mod=mod", "GOPROXY=off", "GOSUMDB=off", "GOTOOLCHAIN=local")
+	t0 := time.Now()
+	out, _ := cmd.CombinedOutput()
+	res["cmd"] = cmdline
+	res["seconds"] = time.Since(t0).Seconds()
+	res["output"] = trunc(string(out), 3000)
+	res["test_source"] = src
+	if strings.Contains(string(out), "REPLAY-CONFIRMED") {
+		res["confirmed"] = true
+	}
+	return res
 }
